@@ -113,6 +113,7 @@ class FuncSummary:
         self.returns_tuple = None  # per-position pairs when every return is an n-tuple
         self._ret_tuples, self._ret_tuples_bad = None, False
         self.returns_fresh_only = True
+        self.returns_global = set()  # '@G:' objects the return value may be/hold
 
 
 class Effects:
@@ -159,7 +160,7 @@ class Effects:
     def _analyse(self, fi):
         s = self.summ[fi.fq]
         before = (set(s.mutates), len(s.global_writes), set(s.returns_alias),
-                  set(s.returns_elem))
+                  set(s.returns_elem), set(s.returns_global))
         cfg = self.cfg(fi)
         init = self._init_state(fi)
 
@@ -181,6 +182,7 @@ class Effects:
         s.global_writes = []
         s.returns_alias = set()
         s.returns_elem = set()
+        s.returns_global = set()
         s._ret_tuples, s._ret_tuples_bad = None, False
         for node in cfg.nodes:
             if node.id in IN:
@@ -197,7 +199,7 @@ class Effects:
         if old_rt != s.returns_tuple:
             before = None
         after = (set(s.mutates), len(s.global_writes), set(s.returns_alias),
-                 set(s.returns_elem))
+                 set(s.returns_elem), set(s.returns_global))
         return before != after
 
     # -- expression aliasing ------------------------------------------------
@@ -370,11 +372,33 @@ class Effects:
             return ast.Constant(value=None)  # fresh object under construction
         return None
 
+    def memoised_var(self, fi, expr):
+        """Description if expr names a module variable bound to a memoised
+        callable built in call form (`g = functools.lru_cache(...)(f)`)."""
+        if not isinstance(expr, (ast.Name, ast.Attribute)):
+            return None
+        r = self.cg.resolve_name_expr(fi, expr)
+        if not r or r[0] != 'var':
+            return None
+        from .peval import CallV, Ext
+        av = self.cg.ev.module_env(r[1]).get(r[2])
+        cur = av
+        while isinstance(cur, CallV) and len(cur.args) == 1 and not cur.kw:
+            fn = cur.fn.fn if isinstance(cur.fn, CallV) else cur.fn
+            if isinstance(fn, Ext) and fn.name in self.MEMOISERS:
+                return '%s:%s' % (r[1].rel, r[2])
+            cur = cur.args[0]
+        return None
+
     def _call_alias(self, fi, call, state):
         E = (FRESH, FRESH)
         funcs, exts = self._callee_infos(fi, call)
         res = E
         decided = False
+        mv = self.memoised_var(fi, call.func)
+        if mv is not None:
+            tok = frozenset(['@G:<cached result of %s>' % mv])
+            res = _u(res, (tok, tok))
         for g, prec in funcs:
             if prec != 'exact':
                 continue
@@ -397,6 +421,9 @@ class Effects:
                 # the same object is handed to every caller
                 tok = frozenset(['@G:%s:<cached result of %s>' % (
                     g.module.rel, g.qualname)])
+                res = _u(res, (tok, tok))
+            if gs.returns_global:
+                tok = frozenset(gs.returns_global)
                 res = _u(res, (tok, tok))
             m = self._bind_args(g, call, self._bound_self(fi, call, g))
             for prm in gs.returns_alias:
@@ -621,6 +648,9 @@ class Effects:
                     for x in al[1]:
                         if not x.startswith(('@', '^')):
                             s.returns_elem.add(x)
+                    for x in al[0] | al[1]:
+                        if '<cached result of' in x:
+                            s.returns_global.add(x)
             return st
         if isinstance(a, (ast.Expr, ast.Raise, ast.Assert)):
             if record:
